@@ -32,12 +32,15 @@ type ChanV struct {
 	closed bool
 	elem   types.Type
 	timer  *timerState
+	// goroutines currently blocked receiving from this channel (rendezvous for unbuffered sends)
+	recvWaiting int
 }
 
 type timerState struct {
 	fired   bool
 	stopped bool
 	ticker  bool
+	fires   int // a ticker fires at most twice per path (bound): otherwise a blocked program would be kept alive forever
 }
 
 type mutexState struct {
@@ -151,7 +154,7 @@ func (s *scheduler) schedule(why string, block func() bool) {
 func (s *scheduler) fireTimer() bool {
 	for _, c := range s.timers {
 		t := c.timer
-		if t.stopped || (t.fired && !t.ticker) {
+		if t.stopped || (t.fired && !t.ticker) || t.fires >= 2 {
 			continue
 		}
 		if len(c.buf) >= 1 {
@@ -161,6 +164,7 @@ func (s *scheduler) fireTimer() bool {
 		t.fired = true
 		c.buf = append(c.buf, Struct{BVc(64, 0)})
 		if len(s.enabled()) > 0 {
+			t.fires++
 			return true
 		}
 		c.buf = c.buf[:0]
@@ -394,14 +398,20 @@ func (in *Interp) asChan(v Value, pos token.Pos) *ChanV {
 }
 
 func (c *ChanV) canRecv() bool { return c != nil && (len(c.buf) > 0 || c.closed) }
-func (c *ChanV) canSend() bool { return c != nil && (c.closed || len(c.buf) < c.cap) }
+func (c *ChanV) canSend() bool {
+	if c == nil {
+		return false
+	}
+	if c.cap == 0 {
+		// unbuffered: a send completes only by handing the value to a waiting receiver
+		return c.closed || (c.recvWaiting > 0 && len(c.buf) == 0)
+	}
+	return c.closed || len(c.buf) < c.cap
+}
 
 func (in *Interp) chanSend(fr *frame, cv Value, x Value, pos token.Pos) {
 	c := in.asChan(cv, pos)
 	s := in.sched
-	if c != nil && c.cap == 0 {
-		in.fail("unsupported", "send on unbuffered channel at "+in.at(pos))
-	}
 	if len(s.gs) > 1 || !c.canSend() {
 		s.schedule("chan send at "+in.at(pos), func() bool { return c.canSend() })
 	}
@@ -415,7 +425,13 @@ func (in *Interp) chanRecv(fr *frame, cv Value, commaOk bool, t types.Type, pos 
 	c := in.asChan(cv, pos)
 	s := in.sched
 	if len(s.gs) > 1 || !c.canRecv() {
+		if c != nil {
+			c.recvWaiting++
+		}
 		s.schedule("chan receive at "+in.at(pos), func() bool { return c.canRecv() })
+		if c != nil {
+			c.recvWaiting--
+		}
 	}
 	var v Value
 	ok := true
@@ -456,9 +472,6 @@ func (in *Interp) selectStmt(fr *frame, i *ssa.Select) Value {
 		states[k].send = ss.Dir == types.SendOnly
 		if states[k].send {
 			states[k].val = in.get(fr, ss.Send)
-			if states[k].c != nil && states[k].c.cap == 0 {
-				in.fail("unsupported", "select with send on unbuffered channel at "+in.at(i.Pos()))
-			}
 		}
 	}
 	ready := func() []int {
@@ -475,7 +488,17 @@ func (in *Interp) selectStmt(fr *frame, i *ssa.Select) Value {
 	}
 	if i.Blocking {
 		if len(s.gs) > 1 || len(ready()) == 0 {
+			for _, x := range states {
+				if !x.send && x.c != nil {
+					x.c.recvWaiting++
+				}
+			}
 			s.schedule("select at "+in.at(i.Pos()), func() bool { return len(ready()) > 0 })
+			for _, x := range states {
+				if !x.send && x.c != nil {
+					x.c.recvWaiting--
+				}
+			}
 		}
 	} else if in.cfg.Concurrent && len(s.gs) > 1 {
 		s.schedule("select(default) at "+in.at(i.Pos()), nil)
